@@ -57,6 +57,7 @@ class Interp:
         self.path: List[Expr] = []
         self.frames: List[Frame] = []
         self.unmodelled: List[dict] = []
+        self.lossy: List[dict] = []
         self.ivspace: Dict[str, Space] = {}
         self.blocks: Dict[str, Blocks] = {}
         from . import prims
@@ -73,8 +74,19 @@ class Interp:
     def unknown(self, tag: str, node=None, deps=()) -> Unknown:
         u = Unknown(tag, deps, node)
         fi = self.frames[-1].fi if self.frames else None
-        self.unmodelled.append(dict(tag=tag, node=node, fi=fi, uid=u.e[3]))
+        self.unmodelled.append(dict(tag=tag, node=node, fi=fi, uid=u.e[3], pos=len(self.log)))
         return u
+
+    def lose(self, why: str, node=None):
+        """the evaluator knowingly dropped information here (a condition, an ordering): verdicts that argue from path
+        conditions or from the absence of events must not be definite after this point"""
+        fi = self.frames[-1].fi if self.frames else None
+        self.lossy.append(dict(why=why, node=node, fi=fi, pos=len(self.log)))
+
+    def clean_before(self, ev=None) -> bool:
+        """nothing was unmodelled or knowingly lost before this event (or in the whole run when ev is None)"""
+        k = self.log.index(ev) if ev is not None and ev in self.log else len(self.log) + 1
+        return not any(u.get("pos", 0) <= k for u in self.unmodelled) and not any(l["pos"] <= k for l in self.lossy)
 
     # ------------------------------------------------------------------ deciding conditions
     def size_lb(self, key) -> int:
@@ -375,7 +387,14 @@ class Interp:
         for x in (a.vals if isinstance(a, Alt) else [a]) + (b.vals if isinstance(b, Alt) else [b]):
             if not any(_same_abstract(x, y) for y in vals):
                 vals.append(x)
-        return Alt(vals) if len(vals) > 1 else vals[0]
+        if len(vals) == 1:
+            return vals[0]
+        out = Alt(vals)
+        if isinstance(out, Alt) and not isinstance(a, Alt) and not isinstance(b, Alt) and len(vals) == 2 \
+                and not (c[0] == "opq" and c[1] == "config"):
+            # remember which alternative holds under which condition (callables chosen by a test, ...)
+            out.conds = [c, sym.Not(c)] if vals[0] is a else [sym.Not(c), c]
+        return out
 
     def join_envs(self, c: Expr, e1: Optional[dict], e2: Optional[dict]) -> Optional[dict]:
         if e1 is None:
@@ -831,6 +850,20 @@ class Interp:
             del self.log[n_log:]
         post.pop("$reach", None)
         env.update(post)
+        # an iteration that raises (or returns) ends the loop: after the loop, no iteration did
+        me = fr.fi
+        for ev in self.log[n_log:]:
+            if ev["kind"] not in ("raise", "return") or ev["fi"] is not me:
+                continue
+            rel = list(ev["path"][n0:])
+            if not rel:
+                continue
+            cnd = sym.And(*rel)
+            uses_carry = any(x[0] == "opq" and x[1] in ("carry", "config") for x in sym.walk(cnd))
+            if is_for and sp is not None and iv is not None and not uses_carry:
+                self.path.append(sym.Red("all", iv, sp, sym.Not(cnd)))
+            else:
+                self.lose(f"a {ev['kind']} inside a loop under a condition that could not be turned into a fact", ev["node"])
         if isinstance(st, (ast.For, ast.While)) and st.orelse:
             return self.exec_block(st.orelse, env)
         return env
@@ -1624,6 +1657,18 @@ class Interp:
 
     def apply(self, fv: Val, pos: List[Val], kwargs: Dict[str, Val], n, env) -> Val:
         if isinstance(fv, Alt):
+            conds = getattr(fv, "conds", None)
+            if conds and len(conds) == len(fv.vals) == 2:
+                outs = []
+                for cnd, x in zip(conds, fv.vals):
+                    k = len(self.path)
+                    self.path.append(cnd)
+                    try:
+                        outs.append(self.apply(x, pos, kwargs, n, env))
+                    finally:
+                        del self.path[k:]
+                return self.join_cond(conds[0], outs[0], outs[1])
+            self.lose("call of one of several callables chosen under an unknown condition", n)
             return Alt([self.apply(x, pos, kwargs, n, env) for x in fv.vals])
         if isinstance(fv, FuncV):
             if fv.kind == "repo":
